@@ -448,11 +448,15 @@ def run(ctx):
     from checks import c16_sched
     ctx.require('reconnect_race_schedules', 30)
     ctx.require('reconnect_race_accepted', 5)
+    ctx.require('first_touch_schedules', 100)
     if ctx.shard == 0:
         c16_sched.run_part(ctx)
+        # two handler threads of one client use its untouched session
+        c16_sched.run_first_touch_part(ctx)
     else:
         ctx.required.pop('reconnect_race_schedules')
         ctx.required.pop('reconnect_race_accepted')
+        ctx.required.pop('first_touch_schedules')
     k = 0
     while not ctx.out_of_time() and not ctx.too_many_violations():
         run_case(ctx, k)
@@ -461,7 +465,7 @@ def run(ctx):
 
 
 def replay(ctx, w):
-    if w['witness'].get('part') == 'reconnect_race':
+    if w['witness'].get('part') in ('reconnect_race', 'first_touch'):
         from checks import c16_sched
         return c16_sched.replay(ctx, w)
     run_case(ctx, w['witness']['case_index'])
